@@ -21,9 +21,10 @@ from .common import VERIF, REPO
 # ----------------------------------------------------------------------------- child side
 
 class Tracer:
-    def __init__(self, watch, kill_at, trace_path):
+    def __init__(self, watch, kill_at, trace_path, fail_at=-1):
         self.watch = os.path.abspath(watch)
         self.kill_at = kill_at
+        self.fail_at = fail_at
         self.n = 0
         self.fd = os.open(trace_path, os.O_WRONLY | os.O_CREAT | os.O_APPEND, 0o644)
 
@@ -41,6 +42,9 @@ class Tracer:
             os.kill(os.getpid(), signal.SIGKILL)
         os.write(self.fd, (json.dumps([self.n] + list(label)) + '\n').encode('utf-8'))
         self.n += 1
+        if self.n - 1 == self.fail_at:
+            # an I/O error instead of a crash: the operation fails once (the process lives on and may handle it)
+            raise OSError(5, 'injected I/O error')
 
 
 class FileProxy:
@@ -127,7 +131,7 @@ def child_main(cfg_path):
     sys.path.insert(0, VERIF)
     modname, fn = cfg['scenario'].split(':')
     mod = importlib.import_module(modname)
-    tracer = Tracer(cfg['watch'], cfg.get('kill_at', -1), cfg['trace'])
+    tracer = Tracer(cfg['watch'], cfg.get('kill_at', -1), cfg['trace'], cfg.get('fail_at', -1))
     install(tracer, cfg.get('copy_bufsize', 64))
     out = getattr(mod, fn)(cfg['params'])
     real_open = builtins.open
@@ -138,10 +142,10 @@ def child_main(cfg_path):
 
 # ----------------------------------------------------------------------------- parent side
 
-def run_child(scenario, params, watch, workdir, tag, kill_at=-1, copy_bufsize=64, timeout=120):
+def run_child(scenario, params, watch, workdir, tag, kill_at=-1, copy_bufsize=64, timeout=120, fail_at=-1):
     """→ dict(returncode, trace=[ops], result=obj|None)"""
     os.makedirs(workdir, exist_ok=True)
-    cfg = {'scenario': scenario, 'params': params, 'watch': watch, 'kill_at': kill_at,
+    cfg = {'scenario': scenario, 'params': params, 'watch': watch, 'kill_at': kill_at, 'fail_at': fail_at,
            'trace': os.path.join(workdir, 'trace-%s.jsonl' % tag), 'result': os.path.join(workdir, 'result-%s.json' % tag),
            'copy_bufsize': copy_bufsize}
     for k in ('trace', 'result'):
